@@ -440,7 +440,29 @@ class CFG:
                     k = " ".join(ast.unparse(n.exprs[0]).split())
                     keys[n.idx] = k
                     count[k] = count.get(k, 0) + 1
-            tracked = {k for k, c in count.items() if c > 1}
+            # what an assignment tells about later tests of the assigned name: `v = None` makes `v is None` true and
+            # `v` false; a value that cannot be None makes `v is None` false  (the flag idiom: v = None; if c: v = x; ..
+            # if v is not None: ..)
+            facts: Dict[int, List[Tuple[str, str]]] = {}
+            present = set(count)
+            for n in self.nodes:
+                if n.kind != "stmt" or not isinstance(n.stmt, (ast.Assign, ast.AnnAssign)) or n.stmt.value is None:
+                    continue
+                tg = n.stmt.targets if isinstance(n.stmt, ast.Assign) else [n.stmt.target]
+                if len(tg) != 1 or not isinstance(tg[0], ast.Name):
+                    continue
+                v, val = tg[0].id, n.stmt.value
+                fs = []
+                if isinstance(val, ast.Constant) and val.value is None:
+                    fs = [(f"{v} is None", "T"), (v, "F")]
+                elif self._surely_not_none(val):
+                    fs = [(f"{v} is None", "F")]
+                    if isinstance(val, ast.Constant):
+                        fs.append((v, "T" if val.value else "F"))
+                fs = [(k, l) for k, l in fs if k in present]
+                if fs:
+                    facts[n.idx] = fs
+            tracked = {k for k, c in count.items() if c > 1} | {k for fl in facts.values() for k, _ in fl}
             pure: Dict[str, bool] = {}
             names: Dict[str, Set[str]] = {}
             for n in self.nodes:
@@ -483,14 +505,41 @@ class CFG:
                     if n.kind == "with":
                         eff = True
                     kills[n.idx] = (stored, eff)
+            self._afacts = facts
             self._ainfo = (keys, tracked, pure, names, kills)
         return self._ainfo
+
+    _PATHLIKE_ATTRS = ("name", "parent", "parts", "stem", "suffix")
+
+    def _surely_not_none(self, val: ast.AST) -> bool:
+        if isinstance(val, ast.Constant):
+            return val.value is not None
+        if isinstance(val, (ast.JoinedStr, ast.List, ast.Dict, ast.Set, ast.Tuple, ast.ListComp, ast.DictComp, ast.SetComp, ast.GeneratorExp, ast.BinOp, ast.Compare, ast.Lambda)):
+            return True
+        if isinstance(val, ast.Call) and isinstance(val.func, ast.Name) and val.func.id in ("str", "int", "float", "bool", "bytes", "dict", "list", "set", "tuple", "frozenset", "len", "sorted", "Path", "repr", "type"):
+            return True
+        if isinstance(val, ast.Attribute) and val.attr in self._PATHLIKE_ATTRS and isinstance(val.value, ast.Name):
+            # path.name etc. of a local that is only ever assigned pathlib expressions
+            defs = [st.value for st in walk_local(self.func) if isinstance(st, ast.Assign) and len(st.targets) == 1 and isinstance(st.targets[0], ast.Name) and st.targets[0].id == val.value.id]
+
+            def pathish(e):
+                if isinstance(e, ast.Call) and isinstance(e.func, ast.Attribute) and e.func.attr in ("relative_to", "resolve", "absolute", "with_name", "with_suffix", "joinpath", "expanduser"):
+                    return True
+                if isinstance(e, ast.Call) and isinstance(e.func, ast.Name) and e.func.id in ("Path", "PurePath"):
+                    return True
+                if isinstance(e, ast.Attribute) and e.attr == "parent":
+                    return True
+                return isinstance(e, ast.BinOp) and isinstance(e.op, ast.Div)
+
+            return bool(defs) and all(pathish(d) for d in defs)
+        return False
 
     def reach_consistent(self, src: Iterable[int], avoid: Iterable[int] = (), labels_block: Iterable[Tuple[int, str]] = (), start_edges: Iterable[Tuple[int, str]] = ()) -> Set[int]:
         """Like reach, but a path never takes the T edge of one test and the F edge of another test of the *same
         atom* unless something in between may have changed the atom's value (a store to one of its names, or any
         call / delete / attribute or item store when the atom reads attributes, items or calls)."""
         keys, tracked, pure, names, kills = self._atom_info()
+        afacts = self._afacts
         avoid = set(avoid)
         block = set(labels_block)
         start = [(s, frozenset()) for s in src]
@@ -510,6 +559,9 @@ class CFG:
             if k is not None and env:
                 stored, eff = k
                 env = frozenset((key, lab) for key, lab in env if not (names[key] & stored) and not (eff and not pure[key]))
+            fa = afacts.get(a)
+            if fa:
+                env = frozenset(env | set(fa))
             for b, lab in self.succ[a]:
                 if (a, lab) in block or b in avoid:
                     continue
